@@ -69,9 +69,11 @@ def run(ctx):
                 ctx.check(oki, R, key + "::total-is-pool-size", b["file"], "the running total starts as the sum of the pooled segment lengths",
                           observed=H.show(init[0]["init"])[:120] if init else None)
                 # the loop pops and subtracts exactly the popped length; leaves when the pool is empty
-                body_s = H.show(lp["body"])
-                okb = "pool.pop()" in body_s and "-= segment.0.raw.len()" in body_s.replace("total_size ", "") or \
-                    ("pool.pop()" in body_s and ".raw.len()" in body_s and "-=" in body_s)
+                # by provenance: total -= <popped segment>.0.raw.len(), the popped value being pool.pop()'s Some(..)
+                pvl = hq.Canon(b, force=True)
+                subs = [pvl(x["r"]) for x in hq.find(lp["body"], lambda x: x.get("k") == "AssignOp" and x["op"] == "-=" and ix.canon(x["l"]) == tot)]
+                okb = len(subs) == 1 and subs[0].startswith("alloc::vec::Vec::len(alloc::collections::binary_heap::BinaryHeap::pop(") and \
+                    subs[0].endswith(")@Option::Some.0.0.raw)")
                 exits = INV._loop_exits(ix, lp)
                 ctx.check(okb and any("None" in e or "none(" in e for e in exits), R, key + "::reduction-subtracts-dropped-length", H.loc(b, lp),
                           "each dropped segment's length is subtracted from the total; an empty pool ends the loop", observed=exits)
@@ -233,18 +235,19 @@ def run(ctx):
         bad2 = [r for r in res2 if r[1] is None]
         # callee postcondition used above: both returns give a non-zero epoch size
         eix = hq.Index(eb)
-        rets = [x for x in hq.find(eb["body"], lambda x: x.get("k") == "Ret")] + [{"k": "Ret", "e": hq.tail_expr(eb["body"]), "tail": True}]
-        okr = len(rets) == 2
-        for r_ in rets:
-            t_ = hq.peel(r_["e"])
-            okr = okr and t_.get("k") == "Tup" and len(t_["elems"]) == 2
-        if okr:
-            early = rets[0]
-            okr = any(c_.startswith("(10000 <= @mut:") or c_.startswith("(@") and "10000" in c_ for c_ in dom.conds(eix, early))
-            asg_ = [x for x in hq.find(eb["body"], lambda x: x.get("k") == "Assign" and H.show(hq.peel(x["l"])) == H.show(hq.peel(hq.peel(rets[1]["e"])["elems"][1])))]
-            okr = okr and len(asg_) == 1 and hq.Canon(eb, inline=True, force=True)(asg_[0]["r"]) in ("core::cmp::Ord::min($2, 10000)",)
+        # the returned epoch size as a case table (early return or if/else, reassigned locals folded at their use)
+        scn = hq.Canon(eb, straight=True)
+        rows = []
+        for conds_, val_, leaf_ in eix.result_cases(canon=scn):
+            t_ = hq.peel(leaf_)
+            cs_ = sorted(scn(p_["expr"]) if p_.get("pos", True) else eix.neg(p_["expr"]) for p_ in eix.path_conditions(leaf_)
+                         if p_["kind"] in hq.Index.CASE_KINDS and "expr" in p_)
+            rows.append((cs_, scn(t_["elems"][1]) if t_.get("k") == "Tup" and len(t_["elems"]) == 2 else None))
+        big = [r_ for r_ in rows if r_[1] is not None and ("(10000 <= %s)" % r_[1]) in r_[0]]
+        small = [r_ for r_ in rows if r_[1] == "core::cmp::Ord::min($2, 10000)"]
+        okr = len(rows) == 2 and len(big) == 1 and len(small) == 1
         ctx.check(okr, RK, "compute_epoch_info::returned-epoch-size-non-zero", eb["file"],
-                  "the returned epoch size is either >= the 10 000 minimum or min(10 000, num_kmers)")
+                  "the returned epoch size is either >= the 10 000 minimum or min(10 000, num_kmers)", observed=rows)
         ctx.check(not bad2 and len(res2) >= 3, RK, "compute_epoch_info::divisors-non-zero", eb["file"],
                   "an epoch divisor is not structurally non-zero: %s" % [r[0][:100] for r in bad2], observed=[(r[0][:80], r[1]) for r in res2])
         # sample size >= 16 for Reservoir::new's assert
